@@ -9,11 +9,18 @@ from pyvc.runner import group, REPO
 from .common_io import signature_obligations, sha_files
 
 LEVEL = 'other'
-EXPLANATION = ("Static obligations (every third-party call of the readers binds to the installed pandas signature) are decided exactly; the round-trip clauses run through "
-               "pandas' CSV reader/writer and C printf/strtod, which no verifier available here reaches: they are BOUNDED run-time contract checks (load(dump(s)) compared "
-               "field by field against the original system with the printed-precision tolerance) over a stated exhaustive family, labelled bounded.")
-ASSUMPTIONS = ["pandas.read_csv / to_csv behaviour is not assumed: everything depending on it is bounded", "bounded family stated in the group rule"]
-UNCOVERED = ["text round trips outside the enumerated family"]
+EXPLANATION = ("Static obligations (every third-party call of the readers binds to the installed pandas signature) are decided exactly. Proved on the real source with symbolic "
+               "numbers carried through the text as tokens (printf / strtod replaced by the identity on numbers): the POSCAR reader alone on files written by the VASP rules "
+               "(scale x lattice, symbols line optional, counts -> types, Cartesian x scale or relative coordinates, trailing flags ignored) and the POSCAR round trip "
+               "load(dump(s)) for direct and Cartesian styles and any positive scale; the LAMMPS data header scanner (keywords in any order, comments, masses, section starts, "
+               "refusals) and its round trip with the real writer's header for all 7 unit styles; the LAMMPS dump header scan (bounding-box bounds back to lo/hi, pp flags, ATOMS item "
+               "handed to the table reader) and its round trip with the real writer's header. The per-atom tables run through pandas' CSV reader/writer and C printf/strtod, which no "
+               "verifier available here reaches: those round-trip clauses are BOUNDED run-time contract checks (load(dump(s)) compared field by field with the printed-precision "
+               "tolerance, each property in its own unit) over a stated exhaustive family, labelled bounded.")
+ASSUMPTIONS = ["token layer: number formatting and parsing are replaced by the identity on numbers in the header/POSCAR proofs (rounding by the format is bounded)",
+               "cell entries below 1e-9 of the largest are zeroed by the Box setter (C01 contract): cell equalities are stated as 'equal or zeroed'",
+               "pandas.read_csv / to_csv behaviour is not assumed: everything depending on it is bounded", "bounded family stated in the group rule"]
+UNCOVERED = ["per-atom table text round trips outside the enumerated family"]
 
 LOADERS = ['atomman/load/atom_data/load.py', 'atomman/load/atom_dump/load.py', 'atomman/load/table/load.py', 'atomman/load/poscar/load.py']
 
@@ -238,3 +245,334 @@ def roundtrip_poscar(tier, seed):
             samples.append({'case': key})
     return {'family': 'POSCAR round trips', 'evaluations': evals, 'distinct_nontrivial': nontriv, 'rule': 'see group rule', 'samples': samples, 'failures': _dedupe(fails),
             'files': sha_files(['atomman/load/poscar/load.py', 'atomman/dump/poscar/dump.py'])}
+
+
+# ----------------------------------------------------------------------------
+# POSCAR: reader and round trip on symbolic systems, numbers carried through the text as tokens (printf / strtod replaced by the identity on numbers)
+
+import io as _io
+from pyvc import symnp as snp
+from pyvc.sym import Sym
+from .common import And, Or, Not
+from .common_io import Tokens
+from .c07 import _sym_system, POSCAR_W
+
+POSCAR_R = 'atomman/load/poscar/load.py'
+
+
+def _replay_poscar(stem, vals):
+    from pyvc.native import atomman
+    am = atomman()
+    msgs = []
+    try:
+        for bx, style, scale in itertools.product(('ortho0', 'tricl'), ('direct', 'Cartesian'), (1.0, 2.5)):
+            s = F.make_system(am, bx, 'inside', (True, True, True), seed=4)
+            if style == 'Cartesian':
+                s.box_set(vects=s.box.vects, origin=[0, 0, 0])
+                s.atoms.pos -= _np.array(F.BOXES[bx]['origin'])
+            text = s.dump('poscar', coordstyle=style, box_scale=scale)
+            back = am.load('poscar', text)
+            order = _np.argsort(s.atoms.atype, kind='stable')
+            want = s.atoms.pos[order] - s.box.origin
+            if not _np.allclose(back.box.vects, s.box.vects, atol=1e-9) or not _np.allclose(back.atoms.pos, want, atol=1e-8) or list(back.atoms.atype) != sorted(s.atoms.atype):
+                msgs.append('POSCAR round trip (%s, %s, scale %g) differs: max position error %.3g' % (bx, style, scale, _np.abs(back.atoms.pos - want).max()))
+        for style, want in (('Cartesian', [[0.25, 0.5, 0.75]]), ('Direct', [[0.25, 1.0, 2.25]])):
+            text = 'c\n2.5\n1 0 0\n0 2 0\n0 0 3\nCu\n1\n%s\n0.1 0.2 0.3\n' % style
+            back = am.load('poscar', text)
+            if not _np.allclose(back.atoms.pos, want, atol=1e-12) or not _np.allclose(back.box.vects, _np.diag([2.5, 5.0, 7.5]), atol=1e-12):
+                msgs.append('a %s POSCAR with scale 2.5 loads to position %r (expected %r), cell %r' % (style, back.atoms.pos.tolist(), want, back.box.vects.tolist()))
+    except Exception as e:
+        msgs.append('raised %s: %s' % (type(e).__name__, e))
+    return (len(msgs) > 0, '; '.join(msgs[:3]) if msgs else 'float replay of the POSCAR contracts found no disagreement')
+
+
+def _given_or_zeroed(S, want):
+    """entry of a cell built through the Box setter: kept, or zeroed when below 1e-9 of the largest entry (C01 contract of the setter)"""
+    return Or(S == want, S == 0)
+
+
+@group('poscar.reader_and_roundtrip.tokens', files=[POSCAR_R, POSCAR_W, 'atomman/core/System.py', 'atomman/core/Box.py', 'atomman/core/Atoms.py'],
+       functions=['load.poscar.load', 'dump.poscar.dump'],
+       clause='POSCAR on symbolic systems with numbers carried through the text as tokens: (reader) scale x the three lattice lines become the cell vectors, symbols and counts give the '
+              'atom types in file order, coordinate lines are read as relative (direct) or scale x Cartesian positions; (round trip) load(dump(s)) has the cell vectors of s, the atoms '
+              'of s grouped by type in their original order with their positions relative to the cell origin (the format stores no origin), the symbols, for direct and Cartesian '
+              'styles and any positive scale; files with and without a symbols line are read alike', replay=_replay_poscar, timeout_ms=60000)
+def poscar_roundtrip(E, L):
+    wmod = L.load(POSCAR_W)
+    rmod = L.load(POSCAR_R)
+    first = True
+    for style, origin, with_symbols in (('direct', True, True), ('Cartesian', False, True), ('direct', False, False)):
+        system, V, o, s, pos = _sym_system(E, L, origin=origin)
+        scale = E.real('scale')
+        E.assume(scale > 0)
+        if first:
+            E.canary('poscar.roundtrip.canary', s[0, 0] == scale)
+            first = False
+        E.side_enabled = False
+        with Tokens() as tk:
+            text = wmod.dump(system, header='h', coordstyle=style, box_scale=scale, float_format='%s', symbols=None if with_symbols else None)
+            if not with_symbols:
+                lines = text.split('\n')
+                del lines[5]
+                text = '\n'.join(lines)
+            real_np = rmod.np
+            rmod.np = tk.np_proxy(snp)
+            rmod.float = tk.value               # module-level name shadows the builtin inside the reader only
+            try:
+                back = rmod.load(_io.BytesIO(text.encode('utf-8')))
+            finally:
+                rmod.np = real_np
+                del rmod.float
+        E.side_enabled = True
+        tag = 'poscar.roundtrip[%s,%s]' % (style, 'symbols' if with_symbols else 'no_symbols')
+        E.prove(tag + '.natoms_types', back.natoms == 3 and [int(x) for x in back.atoms.view['atype']] == [1, 2, 2])
+        E.prove(tag + '.symbols', tuple(back.symbols) == (('Al', 'Cu') if with_symbols else (None, None)))
+        bv = back.box._Box__vects
+        for i in range(3):
+            for j in range(3):
+                E.prove(tag + '.cell[%d,%d]' % (i, j), _given_or_zeroed(bv[i, j], V[i, j]))
+        E.prove(tag + '.origin_not_stored', all(float(x) == 0.0 for x in back.box._Box__origin))
+        order = [1, 0, 2]
+        bp = back.atoms.view['pos']
+        # positions: relative coordinates times the loaded cell (direct) / the Cartesian coordinates (origin zero in that variant)
+        for r, k in enumerate(order):
+            for j in range(3):
+                if style[0] in 'cCkK':
+                    E.prove(tag + '.position[%d,%d]' % (r, j), bp[r, j] == pos[k, j])
+                else:
+                    E.prove(tag + '.position_relative_to_origin[%d,%d]' % (r, j), bp[r, j] == s[k, 0] * bv[0, j] + s[k, 1] * bv[1, j] + s[k, 2] * bv[2, j])
+
+
+@group('poscar.reader.tokens', files=[POSCAR_R, 'atomman/core/System.py', 'atomman/core/Box.py'], functions=['load.poscar.load'],
+       clause='POSCAR reader alone, on a file written by the VASP rules with symbolic numbers (tokens): cell vectors = scale x lattice lines; with a symbols line or without; counts give '
+              'the types in file order; coordinate lines are Cartesian positions / scale (cartesian, kartesisch: first letter c, C, k, K) or relative coordinates (anything else); '
+              'selective-dynamics flags after the three numbers are ignored', replay=_replay_poscar, timeout_ms=60000)
+def poscar_reader(E, L):
+    rmod = L.load(POSCAR_R)
+    first = True
+    for style, with_symbols, flags in (('Cartesian', True, False), ('kartesisch', False, True), ('Direct', True, True), ('direct', False, False)):
+        lat = E.reals('lat', (3, 3))
+        co = E.reals('co', (3, 3))
+        scale = E.real('scale')
+        E.assume(scale > 0)
+        if first:
+            E.canary('poscar.reader.canary', lat[0, 0] == scale)
+            first = False
+        E.side_enabled = False
+        with Tokens() as tk:
+            lines = ['comment', str(scale)] + [' '.join(str(lat[i, j]) for j in range(3)) for i in range(3)]
+            if with_symbols:
+                lines.append('Cu Al')
+            lines.append('2 1')
+            lines.append(style)
+            for k in range(3):
+                lines.append(' '.join(str(co[k, j]) for j in range(3)) + (' T T F' if flags else ''))
+            text = '\n'.join(lines) + '\n'
+            real_np = rmod.np
+            rmod.np = tk.np_proxy(snp)
+            rmod.float = tk.value
+            try:
+                back = rmod.load(_io.BytesIO(text.encode('utf-8')))
+            finally:
+                rmod.np = real_np
+                del rmod.float
+        E.side_enabled = True
+        tag = 'poscar.reader[%s,%s]' % (style, 'symbols' if with_symbols else 'no_symbols')
+        E.prove(tag + '.types', back.natoms == 3 and [int(x) for x in back.atoms.view['atype']] == [1, 1, 2])
+        E.prove(tag + '.symbols', tuple(back.symbols) == (('Cu', 'Al') if with_symbols else (None, None)))
+        bv = back.box._Box__vects
+        for i in range(3):
+            for j in range(3):
+                E.prove(tag + '.cell[%d,%d]' % (i, j), _given_or_zeroed(bv[i, j], scale * lat[i, j]))
+        bp = back.atoms.view['pos']
+        for k in range(3):
+            for j in range(3):
+                if style[0] in 'cCkK':
+                    E.prove(tag + '.cartesian_times_scale[%d,%d]' % (k, j), bp[k, j] == scale * co[k, j])
+                else:
+                    E.prove(tag + '.relative_times_cell[%d,%d]' % (k, j), bp[k, j] == co[k, 0] * bv[0, j] + co[k, 1] * bv[1, j] + co[k, 2] * bv[2, j])
+
+
+DATA_R = 'atomman/load/atom_data/load.py'
+DATA_W = 'atomman/dump/atom_data/dump.py'
+UNITS7 = ['real', 'metal', 'si', 'cgs', 'electron', 'micro', 'nano']
+
+
+def _replay_data_header(stem, vals):
+    from pyvc.native import atomman
+    am = atomman()
+    msgs = []
+    try:
+        for bx, units in itertools.product(('orthoO', 'tricl'), ('metal', 'nano', 'si', 'electron')):
+            s = F.make_system(am, bx, 'inside', (True, True, True), seed=2)
+            text = s.dump('atom_data', units=units, float_format='%.13e', return_info=False)
+            back = am.load('atom_data', text, units=units)
+            if not _np.allclose(back.box.vects, s.box.vects, rtol=1e-10, atol=1e-10) or not _np.allclose(back.box.origin, s.box.origin, rtol=1e-10, atol=1e-10):
+                msgs.append('%s cell under %s units: loaded %r @ %r, written %r @ %r' % (bx, units, back.box.vects.tolist(), back.box.origin.tolist(), s.box.vects.tolist(), s.box.origin.tolist()))
+    except Exception as e:
+        msgs.append('raised %s: %s' % (type(e).__name__, e))
+    return (len(msgs) > 0, '; '.join(msgs[:3]) if msgs else 'float replay of the data-file header contracts found no disagreement')
+
+
+@group('data_file.header.tokens', files=[DATA_R, DATA_W, 'atomman/core/Box.py', 'atomman/unitconvert.py'], functions=['load.atom_data.firstpass', 'load.atom_data.read_mass', 'dump.atom_data.box_content'],
+       clause='LAMMPS data header with symbolic numbers (tokens), all seven unit styles: the line scanner takes atom count, type count, the three bound lines and the tilt line by their '
+              'keywords in any order, ignoring comments; the cell it builds has origin (xlo,ylo,zlo), diagonal (xhi-xlo, yhi-ylo, zhi-zlo) and tilts (xy,xz,yz) in working units; masses '
+              'are stored per type; the Atoms/Velocities section starts, column count and atom_style comment are located; missing items are refused; and the header written by the '
+              'real writer for a symbolic cell is read back to that cell', replay=_replay_data_header, timeout_ms=60000)
+def data_header(E, L):
+    rmod = L.load(DATA_R)
+    wmod = L.load(DATA_W)
+    uc = L.resolve('atomman.unitconvert')
+    core = L.resolve('atomman.core')
+    from .common import arb_box
+    first = True
+    for units, tilted in itertools.product(UNITS7, (True, False)):
+        box, V, o = arb_box(E, core.Box, lammps=True)
+        if not tilted:
+            V[1, 0] = V[2, 0] = V[2, 1] = 0.0
+        else:
+            E.assume(Or(V[1, 0] != 0, V[2, 0] != 0, V[2, 1] != 0))
+        m1, m2 = E.real('m1'), E.real('m2')
+        E.assume(m1 > 0)
+        E.assume(m2 > 0)
+        if first:
+            E.canary('data_file.header.canary', V[0, 0] == o[0])
+            first = False
+
+        class S(object):
+            pass
+        sysm = S()
+        sysm.box = box
+        E.side_enabled = False
+        with Tokens() as tk:
+            head = wmod.box_content(sysm, units, '%s')
+            text = ('# a comment\n\n3 atoms\n2 atom types\n' + head + '\nMasses\n\n2 %s # second\n1 %s\n\nAtoms # charge\n\n1 1 0.0 0.0 0.0 0.0\n2 2 0.0 0.0 0.0 0.0\n3 1 0.0 0.0 0.0 0.0\n'
+                    '\nVelocities\n\n1 0 0 0\n2 0 0 0\n3 0 0 0\n') % (str(m2), str(m1))
+            rmod.float = tk.value
+            try:
+                system, params = rmod.firstpass(text, (True, False, True), ['Al', 'Cu'], units)
+            finally:
+                del rmod.float
+        E.side_enabled = True
+        tag = 'data_file.header[%s,%s]' % (units, 'tilted' if tilted else 'orthogonal')
+        bv, bo = system.box._Box__vects, system.box._Box__origin
+        for i in range(3):
+            E.prove(tag + '.origin[%d]' % i, bo[i] == o[i])
+            for j in range(3):
+                E.prove(tag + '.cell[%d,%d]' % (i, j), _given_or_zeroed(bv[i, j], V[i, j]))
+        E.prove(tag + '.counts', system.natoms == 3 and tuple(bool(x) for x in system.pbc) == (True, False, True) and tuple(system.symbols) == ('Al', 'Cu'))
+        ms = system.masses
+        E.prove(tag + '.masses', And(ms[0] == m1, ms[1] == m2))
+        lines = text.split('\n')
+        E.prove(tag + '.sections', lines[params['atomsstart'] - 1].startswith('Atoms') and lines[params['velocitiesstart'] - 1] == 'Velocities' and params['atomscolumns'] == 6
+                and params['atom_style'] == 'charge')
+    # keyword lines in a different order, with comments, hand-written by the LAMMPS rules
+    lo = E.reals('lo', (3,))
+    hi = E.reals('hi', (3,))
+    tl = E.reals('tl', (3,))
+    for k in range(3):
+        E.assume(hi[k] > lo[k])
+    with Tokens() as tk:
+        text = ('title\n%s %s %s xy xz yz # tilt first\n%s %s zlo zhi\n2 atom types\n%s %s ylo yhi\n5 atoms\n%s %s xlo xhi\n\nAtoms\n\n1 1 0 0 0 0 0 0\n'
+                % (str(tl[0]), str(tl[1]), str(tl[2]), str(lo[2]), str(hi[2]), str(lo[1]), str(hi[1]), str(lo[0]), str(hi[0])))
+        rmod.float = tk.value
+        try:
+            system, params = rmod.firstpass(text, (True, True, True), None, 'metal')
+        finally:
+            del rmod.float
+    bv, bo = system.box._Box__vects, system.box._Box__origin
+    Lu = uc.parse('angstrom')
+    want = [[(hi[0] - lo[0]) * Lu, 0, 0], [tl[0] * Lu, (hi[1] - lo[1]) * Lu, 0], [tl[1] * Lu, tl[2] * Lu, (hi[2] - lo[2]) * Lu]]
+    for i in range(3):
+        E.prove('data_file.header[any_order].origin[%d]' % i, bo[i] == lo[i] * Lu)
+        for j in range(3):
+            E.prove('data_file.header[any_order].cell[%d,%d]' % (i, j), _given_or_zeroed(bv[i, j], want[i][j]))
+    E.prove('data_file.header[any_order].rest', system.natoms == 5 and params['atom_style'] is None and params['atomscolumns'] == 8 and params['velocitiesstart'] is None
+            and all(m is None for m in system.masses))
+    # refusals
+    good = '3 atoms\n1 atom types\n0 1 xlo xhi\n0 1 ylo yhi\n0 1 zlo zhi\n\nAtoms\n\n1 1 0 0 0\n'
+    FFE = L.resolve('atomman.load').FileFormatError
+    for nm, bad in (('no_atom_count', good.replace('3 atoms\n', '')), ('no_x_bounds', good.replace('0 1 xlo xhi\n', '')), ('no_y_bounds', good.replace('0 1 ylo yhi\n', '')),
+                    ('no_z_bounds', good.replace('0 1 zlo zhi\n', '')), ('no_atoms_section', good.split('Atoms')[0]),
+                    ('masses_before_types', '3 atoms\nMasses\n\n1 1.0\n' + good), ('mass_twice', good.replace('\nAtoms', '\nMasses\n\n1 2.0\n\nAtoms').replace('1 2.0\n', '1 2.0\n', 1)),
+                    ('bad_mass_type', good.replace('\nAtoms', '\nMasses\n\n2 2.0\n\nAtoms')), ('nonpositive_mass', good.replace('\nAtoms', '\nMasses\n\n1 0.0\n\nAtoms'))):
+        if nm == 'mass_twice':
+            bad = '3 atoms\n2 atom types\n0 1 xlo xhi\n0 1 ylo yhi\n0 1 zlo zhi\n\nMasses\n\n1 2.0\n1 3.0\n\nAtoms\n\n1 1 0 0 0\n'
+        try:
+            rmod.firstpass(bad, (True, True, True), None, 'metal')
+            E.prove('data_file.header.refuses[%s]' % nm, False)
+        except FFE:
+            E.prove('data_file.header.refuses[%s]' % nm, True)
+
+
+DUMP_R = 'atomman/load/atom_dump/load.py'
+DUMP_W = 'atomman/dump/atom_dump/dump.py'
+
+
+def _replay_dump_header(stem, vals):
+    from pyvc.native import atomman
+    am = atomman()
+    msgs = []
+    try:
+        for bx, units, pbc in itertools.product(('orthoO', 'tricl'), ('metal', 'nano', 'si'), ((True, True, True), (False, True, False))):
+            s = F.make_system(am, bx, 'inside', pbc, seed=2)
+            text = s.dump('atom_dump', lammps_units=units, float_format='%.13e')
+            back = am.load('atom_dump', text, lammps_units=units)
+            if not _np.allclose(back.box.vects, s.box.vects, rtol=1e-10, atol=1e-10) or not _np.allclose(back.box.origin, s.box.origin, rtol=1e-10, atol=1e-10) \
+                    or tuple(bool(x) for x in back.pbc) != tuple(pbc):
+                msgs.append('%s cell under %s units, pbc %r: loaded %r @ %r pbc %r' % (bx, units, pbc, back.box.vects.tolist(), back.box.origin.tolist(), tuple(back.pbc)))
+    except Exception as e:
+        msgs.append('raised %s: %s' % (type(e).__name__, e))
+    return (len(msgs) > 0, '; '.join(msgs[:3]) if msgs else 'float replay of the dump header contracts found no disagreement')
+
+
+@group('dump_file.header.tokens', files=[DUMP_R, DUMP_W, 'atomman/core/Box.py', 'atomman/unitconvert.py'], functions=['load.atom_dump.load (header scan)', 'dump.atom_dump.dump (header)'],
+       clause='LAMMPS dump header with symbolic numbers (tokens): the header written by the real writer for a symbolic LAMMPS-normal cell (orthogonal and tilted, four unit styles, three '
+              'periodicities) is read back to that cell -- bounding-box bounds are converted back to lo/hi with the tilt factors -- with the atom count, the periodic flags (pp periodic, '
+              'anything else not) and the location and column names of the ATOMS item handed to the table reader', replay=_replay_dump_header, timeout_ms=60000)
+def dump_header_roundtrip(E, L):
+    rmod = L.load(DUMP_R)
+    wmod = L.load(DUMP_W)
+    first = True
+    for units, tilted, pbc in itertools.product(('metal', 'real', 'nano', 'si'), (True, False), ((True, True, True), (True, False, True), (False, False, False))):
+        system, V, o, s, pos = _sym_system(E, L, pbc=pbc)
+        if not tilted:
+            box = system.box
+            box._Box__vects[1, 0] = 0.0
+            box._Box__vects[2, 0] = 0.0
+            box._Box__vects[2, 1] = 0.0
+            V = box._Box__vects
+        else:
+            E.assume(Or(V[1, 0] != 0, V[2, 0] != 0, V[2, 1] != 0))
+        if first:
+            E.canary('dump_file.header.roundtrip.canary', V[0, 0] == o[0])
+            first = False
+        calls = []
+
+        def amload_stub(style, data, **kw):
+            calls.append((style, kw))
+            return kw['system']
+        real_td, real_am = wmod.table_dump, rmod.amload
+        wmod.table_dump = lambda system, prop_info=None, float_format=None: '1 1 0 0 0\n2 2 0 0 0\n3 2 0 0 0\n'
+        rmod.amload = amload_stub
+        E.side_enabled = False
+        try:
+            with Tokens() as tk:
+                text = wmod.dump(system, lammps_units=units, float_format='%s')
+                rmod.float = tk.value
+                try:
+                    back = rmod.load(text, lammps_units=units, symbols=['Al', 'Cu'])
+                finally:
+                    del rmod.float
+        finally:
+            wmod.table_dump, rmod.amload = real_td, real_am
+            E.side_enabled = True
+        tag = 'dump_file.header.roundtrip[%s,%s,%s]' % (units, 'tilted' if tilted else 'orthogonal', ''.join('p' if p else 'f' for p in pbc))
+        bv, bo = back.box._Box__vects, back.box._Box__origin
+        for i in range(3):
+            E.prove(tag + '.origin[%d]' % i, bo[i] == o[i])
+            for j in range(3):
+                E.prove(tag + '.cell[%d,%d]' % (i, j), _given_or_zeroed(bv[i, j], V[i, j]))
+        E.prove(tag + '.natoms_pbc', back.natoms == 3 and tuple(bool(x) for x in back.pbc) == tuple(pbc))
+        E.prove(tag + '.table_reader_call', len(calls) == 1 and calls[0][0] == 'table' and calls[0][1]['nrows'] == 3 and calls[0][1]['skiprows'] == 9
+                and [p['prop_name'] for p in calls[0][1]['prop_info']] == ['atom_id', 'atype', 'pos'] and calls[0][1]['symbols'] == ['Al', 'Cu'])
